@@ -283,7 +283,7 @@ def rerun_alone(run: Run, t: dict, which: str) -> str:
     different backstops: 'returned' | 'steplimit …' (a step verdict after all) | 'stalled …' (the meter does not
     move between the two: a loop outside the metered operations) | 'undecided' (slow but moving: machinery)"""
     outs = []
-    for cap in (45.0, 90.0):
+    for cap in (25.0, 50.0):
         rr = eio.run_pool([{**t, "modes": True, "cap_s": cap}], workers=1, backstop_s=120.0)[0]
         if "grammar" not in rr:
             return "undecided"
@@ -294,7 +294,7 @@ def rerun_alone(run: Run, t: dict, which: str) -> str:
             return f"{how_of(rr, w)} at {steps_of(rr, w)} steps"
         outs.append(steps_of(rr, w))
     if len(outs) == 2 and outs[0] == outs[1]:
-        return f"stalled at {outs[0]} steps after 45 s and after 90 s (a loop outside the metered operations)"
+        return f"stalled at {outs[0]} steps after 25 s and after 50 s (a loop outside the metered operations)"
     return "undecided"
 
 
@@ -372,6 +372,16 @@ def judge(run: Run, tasks: list[dict], reals: list[dict], core: list, pol: list,
                 # ambiguity explosion (finite, exponential: e.g. a body that is nullable in two ways under `{1,}` = 20
                 # nested copies).  Decided by a 10x limit on the real code, and for forest / first-tree requests by the
                 # model run with the code's admission policy.
+                # Inside a cyclic class with the cut in place the forests are finite but can be astronomically large
+                # (every acyclic combination of 20 nested nullable copies): the model decides forest / first-tree
+                # requests (if it finishes with the code's policy, so must the code); a prefix request there is
+                # counted, not judged (prefix mode is not modelled).
+                if (eps or pcyc) and which == "prefix":
+                    run.count("undecided:prefix_explosion_inside_cyclic_class")
+                    continue
+                if which != "prefix" and not (mp is not None and mp["status"] in ("done", "raised")):
+                    run.count("undecided:" + which + "_explosion_model_does_not_finish_either")
+                    continue
                 big = {**t, "modes": True, "step_limit": 10 * int(t.get("step_limit") or STEP_LIMIT), "cap_s": 240.0}
 
                 def still(c):
@@ -395,6 +405,8 @@ def judge(run: Run, tasks: list[dict], reals: list[dict], core: list, pol: list,
                 known(run, SIG_PREFIX, f"prefix request yields more than {t['max_trees']} trees of an infinite forest: "
                            f"input {eio.word_of(t['word'])!r} grammar {t['spec'].strip()!r}",
                            replay_dict(t, {"class": "prefix_cycle", "mode": "prefix-unbounded"}))
+            elif eps or pcyc:
+                run.count("undecided:large_prefix_forest_inside_cyclic_class")     # finite with the cut, not modelled
             else:
                 unbounded_outside.append((t, "prefix"))
         if st == "truncated":
@@ -404,6 +416,8 @@ def judge(run: Run, tasks: list[dict], reals: list[dict], core: list, pol: list,
                 known(run, SIG_KNOWN, f"whole-forest request yields more than {t['max_trees']} trees of an infinite "
                            f"forest: input {eio.word_of(t['word'])!r} grammar {t['spec'].strip()!r}",
                            replay_dict(t, {"class": "hasEpsCycle", "mode": "forest-unbounded"}))
+            elif eps and not (mp is not None and mp["status"] in ("done", "raised")):
+                run.count("undecided:large_forest_inside_cyclic_class_model_does_not_finish_either")
             else:
                 unbounded_outside.append((t, "forest"))
             continue
@@ -542,6 +556,9 @@ def judge_fuzz(run: Run, ftasks: list[dict], fres: list[dict], policy: str, unde
                  {"fuzz": t["kind"], "spec": t["spec"], "constraints": t["constraints"], "status": st, "meter": r.get("meter")})
         if st not in BAD:
             continue
+        if st == "exc:RecursionError" and (r.get("meter") or {}).get("adds", 0) < 1000:
+            run.count("fuzz:recursion_outside_parser")       # the expander's own recursion (C01), parser barely ran
+            continue
         what = (f"fuzz run ({t['kind']}: the value {t['word']!r} is parsed under <c06g> internally) does not finish: {st} "
                 f"(limit {t['step_limit']} steps, meter {r.get('meter')}): {t['spec'].strip()!r} constraints {t['constraints']}")
         rp = {"fuzz": True, "kind": t["kind"], "spec": t["spec"], "constraints": t["constraints"], "seed": t["seed"],
@@ -556,7 +573,8 @@ def judge_fuzz(run: Run, ftasks: list[dict], fres: list[dict], policy: str, unde
             continue
         rr = eio.run_pool([{**t, "step_limit": 10 * t["step_limit"], "cap_s": 600.0}], workers=1, backstop_s=120.0,
                           fn=c06_fuzz.fuzz_case)[0]
-        if rr.get("status") in ("steplimit", "exc:RecursionError"):
+        if rr.get("status") == "steplimit" or (rr.get("status") == "exc:RecursionError"
+                                               and (rr.get("meter") or {}).get("adds", 0) >= 1000):
             run.report("C06/divergence-in-fuzz", what + " — outside hasEpsCycle, still over a 10x step limit", rp)
         else:
             run.count("fuzz:finished_with_10x_limit")
